@@ -7,7 +7,9 @@
 
 mod bigfield;
 mod common;
+mod exec;
 mod gen;
+mod hostile;
 mod layout;
 mod prop;
 
